@@ -12,6 +12,10 @@ therefore stated for blocks other than `try` on the path of the signal, and the 
 -/
 import Anko.Proofs.EvalSig
 import Anko.Gen.StmtFlow
+import Anko.Props.Tie.StmtFlow
+import Anko.Props.Tie.SingleStmtFlow
+import Anko.Props.Tie.ProvFlow
+import Anko.Props.Tie.ToXFlow
 
 set_option linter.unusedSectionVars false
 set_option linter.unusedSimpArgs false
@@ -447,5 +451,20 @@ def branchAndLoopFlow : List (String × String) := [
 
 theorem branches_and_loops_move_control_as_modelled :
     Gen.StmtFlow.leaves.filter (fun l => l.1 != "runTryStmt" && l.1 != "runDefers") = branchAndLoopFlow := by decide +kernel
+
+/-! ### Shared source ties
+
+The code this property is anchored in is also written down, leaf statement by leaf statement, by the tables below (each decided once in
+Props/Tie, `decide +kernel`, against the table regenerated from /repo on this run). A change of that code breaks the tie by name here too, and the check of
+this property then searches for a failing input - so a change that breaks this property through code whose primary table belongs to another
+property is not overlooked. -/
+/-- the branch, loop, try and defer functions (vmStmt.go) -/
+theorem source_tie_StmtFlow : Gen.StmtFlow.leaves = Tables.stmtFlow := Tie.stmtFlow
+/-- the statement dispatcher, return, defer, deferred calls -/
+theorem source_tie_SingleStmtFlow : Gen.SingleStmtFlow.leaves = Tables.singleStmtFlow := Tie.singleStmtFlow
+/-- unary operators, dereference, address-of, unalias, containerOperand, isNil -/
+theorem source_tie_ProvFlow : Gen.ProvFlow.leaves = Tables.provFlow := Tie.provFlow
+/-- the conversions of the numeric tower (vmToX.go) and kind helpers -/
+theorem source_tie_ToXFlow : Gen.ToXFlow.leaves = Tables.toXFlow := Tie.toXFlow
 
 end Anko.C08
